@@ -1,7 +1,67 @@
-//! AwesomeOscillator — reference model (TODO).
+//! AwesomeOscillator. Doc: 1 value — difference between the fast and the slow moving average of the
+//!   source (linked page: AO = SMA(hl2, 5) − SMA(hl2, 34)), i.e. MA2(src) − MA1(src): `ma2` is the fast
+//!   (short) one, `ma1` the slow (long) one.
+//! 2 signals:
+//!   #0 "Twin Peaks": value below the zero line and `conseq_peaks` lower peaks (swing lows, troughs —
+//!      linked page: "two swing lows of the AO below zero") seen: full buy; value above the zero line
+//!      and `conseq_peaks` higher peaks (swing highs): full sell; otherwise none.
+//!   #1 value crosses the zero line (upwards: full buy, downwards: full sell).
 use super::*;
 
-/// returns None until the reference is written
-pub fn make(_cfg: &Cfg, _c0: &RC) -> Option<Box<dyn IndRef>> {
-	None
+#[derive(Clone)]
+pub struct AwesomeOscillator {
+	src: String,
+	slow: Box<dyn rm::RefVV>,
+	fast: Box<dyn rm::RefVV>,
+	peaks: u32,
+	rev: Rev,
+	lows: u32,
+	highs: u32,
+	x: CrossD,
+}
+
+pub fn make(cfg: &Cfg, c0: &RC) -> Option<Box<dyn IndRef>> {
+	let src = cfg.src("source");
+	let s0 = source(c0, &src);
+	Some(Box::new(AwesomeOscillator {
+		// averages of the constant prehistory are that constant, their difference is 0
+		slow: cfg.ma_ref("ma1", s0),
+		fast: cfg.ma_ref("ma2", s0),
+		peaks: cfg.int("conseq_peaks") as u32,
+		rev: Rev::new(cfg.int("left"), cfg.int("right"), 0.0),
+		lows: 0,
+		highs: 0,
+		x: CrossD::new(0.0),
+		src,
+	}))
+}
+
+impl IndRef for AwesomeOscillator {
+	fn values(&mut self, c: &RC) -> Vec<Q> {
+		let s = source(c, &self.src);
+		vec![self.fast.stepq(s) - self.slow.stepq(s)]
+	}
+	fn signals(&mut self, _c: &RC, own: &[f64]) -> Vec<Sig> {
+		let v = own[0];
+		// +1: a lower peak (swing low) is confirmed now, -1: a higher peak (swing high)
+		let r = self.rev.step(v);
+		// † follows the implementation: peaks are counted when they are confirmed (`right` steps after
+		// the extremum); a count lasts as long as the value stays on its side of the zero line (a value
+		// of exactly 0 belongs to both sides) and is NOT cleared by a signal: once `conseq_peaks` is
+		// reached every further peak on that side signals again
+		if v > 0.0 {
+			self.lows = 0;
+		} else if r > 0 {
+			self.lows = self.lows.saturating_add(1);
+		}
+		if v < 0.0 {
+			self.highs = 0;
+		} else if r < 0 {
+			self.highs = self.highs.saturating_add(1);
+		}
+		let buy = r > 0 && v <= 0.0 && self.lows >= self.peaks;
+		let sell = r < 0 && v >= 0.0 && self.highs >= self.peaks;
+		vec![sig_sign(buy as i32 - sell as i32), sig_sign(self.x.cross(v, 0.0))]
+	}
+	indref!(AwesomeOscillator);
 }
